@@ -592,3 +592,106 @@ func (L *Locks) Order() ([]LockEdge, [][]types.Object) {
 	})
 	return edges, sccs
 }
+
+// FieldAccess is one read or write of a struct field.
+type FieldAccess struct {
+	Fn    *ssa.Function
+	Instr ssa.Instruction
+	Write bool
+	Fresh bool // the base object is allocated in this function and not yet published
+	Held  LockSet
+}
+
+// AccessesOf lists every access to the given field in the analysed functions.
+// The field's address is followed through phis, returns (address getters such as
+// connectionsFor) and static call arguments; a store through the address, a map
+// update / delete on the loaded map, is a write; a load is a read.
+func (L *Locks) AccessesOf(field *types.Var) []FieldAccess {
+	var out []FieldAccess
+	type item struct {
+		v     ssa.Value
+		fresh bool
+	}
+	seen := map[ssa.Value]bool{}
+	var work []item
+	push := func(v ssa.Value, fresh bool) {
+		if v != nil && !seen[v] {
+			seen[v] = true
+			work = append(work, item{v, fresh})
+		}
+	}
+	// static call sites per callee (for returns)
+	sites := map[*ssa.Function][]*ssa.Call{}
+	for _, f := range L.p.SrcFuncs {
+		EachInstr(f, func(i ssa.Instruction) {
+			if c, ok := i.(*ssa.Call); ok {
+				if cal := c.Call.StaticCallee(); cal != nil {
+					sites[cal] = append(sites[cal], c)
+				}
+			}
+			switch x := i.(type) {
+			case *ssa.FieldAddr:
+				if FieldOfAddr(x) == field {
+					push(x, isFreshAlloc(x.X))
+				}
+			case *ssa.Field:
+				if FieldOfField(x) == field {
+					out = append(out, FieldAccess{f, i, false, false, L.atInstr(i)})
+				}
+			}
+		})
+	}
+	for len(work) > 0 {
+		it := work[len(work)-1]
+		work = work[:len(work)-1]
+		refs := it.v.Referrers()
+		if refs == nil {
+			continue
+		}
+		for _, ref := range *refs {
+			f := ref.Parent()
+			switch x := ref.(type) {
+			case *ssa.Store:
+				if x.Addr == it.v {
+					out = append(out, FieldAccess{f, x, true, it.fresh, L.atInstr(x)})
+				}
+			case *ssa.UnOp:
+				w := false
+				var at ssa.Instruction = x
+				if lr := x.Referrers(); lr != nil {
+					for _, r2 := range *lr {
+						switch y := r2.(type) {
+						case *ssa.MapUpdate:
+							if y.Map == ssa.Value(x) {
+								w, at = true, y
+							}
+						case *ssa.Call:
+							if b, ok := y.Call.Value.(*ssa.Builtin); ok && b.Name() == "delete" && y.Call.Args[0] == ssa.Value(x) {
+								w, at = true, y
+							}
+						}
+					}
+				}
+				out = append(out, FieldAccess{f, at, w, it.fresh, L.atInstr(at)})
+			case *ssa.Phi:
+				push(x, it.fresh)
+			case *ssa.Return:
+				for _, c := range sites[f] {
+					if len(x.Results) == 1 {
+						push(c, false)
+					}
+				}
+			case *ssa.Call:
+				if cal := x.Call.StaticCallee(); cal != nil && cal.Blocks != nil {
+					for ai, a := range x.Call.Args {
+						if a == it.v && ai < len(cal.Params) {
+							push(cal.Params[ai], false)
+						}
+					}
+				}
+			case *ssa.FieldAddr, *ssa.IndexAddr, *ssa.DebugRef:
+			}
+		}
+	}
+	return out
+}
